@@ -298,23 +298,29 @@ Section Run.
   Proof. intros H k. rewrite world_after_add. apply H. Qed.
 
   Lemma join_mode0 w lowest e burst : (j_mode c =? 2) = false -> join_try c w lowest e = Some burst ->
-    blocks_from_num (h_f (w_hub w)) (bnum (eblk e)) = BOk burst /\ h_ready (w_hub w) = true.
+    blocks_from_num (h_f (w_hub w)) (bnum (eblk e)) = BOk burst /\ h_ready (w_hub w) = true /\
+    exists b0 tl, burst = b0 :: tl /\ bid (eblk b0) = bid (eblk e).
   Proof.
-    intros Hmode2. unfold join_try. rewrite Hmode2.
+    intros Hmode2. unfold join_try. rewrite Hmode2. cbn [orb].
     destruct ((lowest <=? bnum (eblk e)) && matches_new (estep e)); [|discriminate].
     destruct (blocks_from_num (h_f (w_hub w)) (bnum (eblk e))) as [evs| | |]; try discriminate.
-    destruct (h_ready (w_hub w)); [|discriminate]. intros H. injection H as <-. auto.
+    destruct (h_ready (w_hub w)); [|discriminate]. cbn [andb].
+    destruct evs as [|b0 tl]; [discriminate|]. destruct (N.eqb_spec (bid (eblk b0)) (bid (eblk e))) as [E|E]; [|discriminate].
+    intros H. injection H as <-. split; [reflexivity|]. split; [reflexivity|]. exists b0, tl. auto.
   Qed.
 
-  (* from a number or from a cursor the join asks for a block number: files_agree makes it good *)
-  Lemma agree_joins w : (j_mode c =? 2) = false -> files_agree c w merged -> joins_good w.
+  (* from a number or from a cursor the join is made on the identity of the file block: the hub's canonical block
+     of that height is the file block itself *)
+  Lemma id_joins w : (j_mode c =? 2) = false -> joins_good w.
   Proof.
-    intros Hmode2 Hagr m lowest bn burst Hbn Ej.
-    destruct (join_mode0 _ lowest (fev bn) burst Hmode2 Ej) as [Hb Hrd]. cbn [eblk file_event] in Hb.
+    intros Hmode2 m lowest bn burst Hbn Ej.
+    destruct (join_mode0 _ lowest (fev bn) burst Hmode2 Ej) as (Hb & Hrd & b0 & tl & Eb0 & Hid). cbn [eblk file_event] in Hb, Hid.
     split; [exact Hrd|]. intros V HV.
     destruct (burst_shape _ V (bnum bn) burst HV Hb)
       as (hd & sg & x & suf & l & Hls & Hhd & Eseg & Hxin & Hnx & Hmap & Hnew & HbU & Hlsuf & Hlast).
-    assert (Ex : seg_blk x = bn) by (exact (Hagr m hd sg x bn Hrd Hls Eseg Hxin Hbn Hnx)).
+    assert (Ex : seg_blk x = bn).
+    { apply U_uniq; [exact (Forall_inv HbU) | apply Hmerged_U; exact Hbn|].
+      rewrite Eb0 in Hmap. cbn [map] in Hmap. injection Hmap as E _. rewrite <- E. exact Hid. }
     rewrite Ex in *. exists hd, (map seg_blk suf), l.
     split; [exact Hhd|]. split; [exact Hmap|]. split; [exact Hnew|]. split; [exact HbU|]. split; [exact Hlsuf | exact Hlast].
   Qed.
@@ -375,16 +381,16 @@ Section Run.
 
   Lemma stream_num w ps merged_end forked :
     j_mode c = 0 -> run_start c w = start ->
-    WOK w -> eventual_tip c w canon -> files_agree c w merged ->
+    WOK w -> eventual_tip c w canon ->
     let D := file_delivery merged start file_bound (j_bundle c) in
     (exists x, lnk x D) -> (forall z r, D = z :: r -> bnum z <= start) ->
     let res := stream_run c w ps merged_end merged forked in
     exists st, sfold [] (fst res) = Some st /\
       (snd res = JNil -> rev st = D \/ from_num start (rev st) = from_num start canon).
   Proof.
-    intros Hmode Hstart HW Htip Hagr D HlD HbotD res.
+    intros Hmode Hstart HW Htip D HlD HbotD res.
     assert (Hmode2 : (j_mode c =? 2) = false) by (rewrite Hmode; reflexivity).
-    pose proof (agree_joins w Hmode2 Hagr) as Hjg.
+    pose proof (id_joins w Hmode2) as Hjg.
     assert (HinD : forall b, In b ([] ++ D) -> In b merged).
     { intros b Hb. cbn [app] in Hb. unfold D, file_delivery in Hb. apply filter_In in Hb as [Hb _]. exact Hb. }
     assert (Hfile : forall fuel lowest,
